@@ -234,6 +234,7 @@ type Outcome struct {
 	EstSteps   int64
 	LogHash    uint64   // hash of everything observable about the run (determinism self-test)
 	HistFuncs  []string `json:"history_funcs,omitempty"` // cache-full handling functions entered in the reference pass or the concurrent phase
+	Diverged   int      // mismatches explained by a pure engine/configuration divergence
 }
 
 func trunc(s string, n int) string {
@@ -402,6 +403,12 @@ func runConc(sc *Scenario, st *SiteTable, raceLog *raceLogReader) *Outcome {
 					}
 					continue
 				}
+				if concDivergence(sc, &sc.Workers[w][i], hb, hs, got[w][i]) {
+					// the answer is what a fresh value gives under another valid configuration
+					// (NFA only / default): a pure divergence between engines, not interference
+					out.Diverged++
+					continue
+				}
 				out.Mismatches = append(out.Mismatches, Mismatch{w, i, sc.Workers[w][i], trunc(got[w][i], 300), trunc(want[w][i], 300), trunc(fr, 300)})
 				if out.Class == "" || out.Class == "history" {
 					out.Class = "result"
@@ -411,6 +418,21 @@ func runConc(sc *Scenario, st *SiteTable, raceLog *raceLogReader) *Outcome {
 		}
 	}
 	return out
+}
+
+// concDivergence: see engineDivergence in history.go.
+func concDivergence(sc *Scenario, op *Op, hb [][]byte, hs []string, got string) bool {
+	for _, k := range []Knobs{{NoDFA: true, NoPrefilter: true}, {}} {
+		k.Longest = sc.Knobs.Longest
+		ref, err := compile(sc.Pattern, k)
+		if err != nil {
+			continue
+		}
+		if execOp(ref, op, hb, hs) == got {
+			return true
+		}
+	}
+	return false
 }
 
 // serialRecheck replays the same operations with no preemption and a fault-free
